@@ -1345,16 +1345,22 @@ func ExistExpr(query *Query, current Map, expr *sqlparser.ExistsExpr, opts ...Ex
 	if err != nil {
 		return false, err
 	}
+	from := make([]any, len(q.from))
 	for i := 0; i < len(q.from); i++ {
-		item, ok := q.from[i].(Map)
+		source, ok := q.from[i].(Map)
 		if !ok {
-			return false, INVALID_TYPE.Extend(fmt.Sprintf("failed to build `EXIST` expression. expected an object but found %T", item))
+			return false, INVALID_TYPE.Extend(fmt.Sprintf("failed to build `EXIST` expression. expected an object but found %T", source))
+		}
+		item := make(Map, len(source)+len(current))
+		for key, value := range source {
+			item[key] = value
 		}
 		for key, value := range current {
 			item[key] = value
 		}
-		q.from[i] = item
+		from[i] = item
 	}
+	q.from = from
 	rs, err := q.exec()
 	array, ok := rs.([]any)
 	if !ok {
